@@ -68,9 +68,16 @@ def Dia.val [Add α] [OfNat α 0] (X : Dia α) (i j : Nat) : α :=
     (List.range X.offsets.size).foldl (fun s k => if (i : Int) + X.off k = (j : Int) then s + X.at k j else s) 0
   else 0
 
-/-- `np.argsort(offsets)` -/
-def Dia.order (X : Dia α) : List Nat :=
-  (List.range X.offsets.size).mergeSort fun a b => decide (X.off a ≤ X.off b)
+/-- insert diagonal `k` into a list of diagonals sorted by offset (before the ones with an equal offset) -/
+def insOff (off : Nat → Int) (k : Nat) : List Nat → List Nat
+  | [] => [k]
+  | a :: l => if off k ≤ off a then k :: a :: l else a :: insOff off k l
+
+/-- stable insertion sort by offset -/
+def sortOff (off : Nat → Int) (l : List Nat) : List Nat := l.foldr (insOff off) []
+
+/-- `np.argsort(offsets)` (offsets are distinct: the sorted order is unique) -/
+def Dia.order (X : Dia α) : List Nat := sortOff X.off (List.range X.offsets.size)
 
 /-- row `i` of `dia_tocsr`: `for n: k = order[n]; j = i + offsets[k]; if (j < 0 or j >= min(n_cols, L)) continue;
 x = data[k, j]; if (x != 0) emit (j, x)` -/
